@@ -185,6 +185,18 @@ Theorem C19_linear_grid_error_lipschitz ns f M h hmin : sorted ns -> 1 < length 
   (Rabs ((Iglobal ns 1 f u - f u) - (Iglobal ns 1 f v - f v)) <= (2 / hmin * (M * h ^ 2 / INR (fact 2)) + M * h ^ 1 / INR (fact 1)) * Rabs (u - v))%R.
 Proof. exact (linear_grid_error_lipschitz ns f M h hmin). Qed.
 Print Assumptions C19_linear_grid_error_lipschitz.
+Theorem C19_prediction_error_linear_grid (k : rsl) ns f M h hmin x W Ws v w : sorted ns -> 1 < length ns -> (0 < hmin)%R ->
+  (nth 0 ns 0 <= x)%R -> (0 < x < 1)%R -> nth (length ns - 1) ns 0%R = 1%R ->
+  (forall u, (nth 0 ns 0 <= u <= 1)%R -> forall j, j <= 2 -> ex_derive_n f j u) ->
+  (forall u, (nth 0 ns 0 < u < 1)%R -> (Rabs (Derive_n f 2 u) <= M)%R) ->
+  (forall i, i + 1 < length ns -> (hmin <= nth (S i) ns 0 - nth i ns 0 <= h)%R) ->
+  is_conv k (Iglobal ns 1 f) x v -> is_conv k f x w ->
+  is_RInt_gen (fun z => (Rabs (r_reg k z) / z)%R) (at_point x) (at_left 1) W ->
+  is_RInt_gen (fun z => (Rabs (r_sing k z) * ((1 - z) / (z * z)))%R) (at_point x) (at_left 1) Ws ->
+  (Rabs (v - w) <= (W + Rabs (r_loc k x)) * ((1 + 1) * (M * h ^ 2 / INR (fact 2)))
+                  + Ws * ((2 / hmin * (M * h ^ 2 / INR (fact 2)) + M * h ^ 1 / INR (fact 1)) * x + (1 + 1) * (M * h ^ 2 / INR (fact 2))))%R.
+Proof. exact (prediction_error_linear_grid k ns f M h hmin x W Ws v w). Qed.
+Print Assumptions C19_prediction_error_linear_grid.
 Example C19_linear_grid_example t : (1 / 4 <= t <= 1)%R -> (Rabs (Iglobal gex 1 exp t - exp t) <= 3 * (1 / 2) ^ 2)%R.
 Proof. exact (linear_grid_example t). Qed.
 
